@@ -106,13 +106,18 @@ def run_cli(image_path, rpc, target=None):
 class Driver:
     """one product on one filesystem with a private user-cache dir; executes macro operations"""
 
-    def __init__(self, level, fsname, seed, images=(("HH", None, 4, 3), ("HV", None, 3, 2))):
+    def __init__(self, level, fsname, seed, images=(("HH", None, 4, 3), ("HV", None, 3, 2)), nonascii=False):
         self.b = product.build_product(level=level, images=images, seed=seed)
         self.fsname = fsname
+        self.nonascii = nonascii
         self.cache_home = os.environ["XDG_CACHE_HOME"]
         for f in glob.glob(os.path.join(self.cache_home, "**", "*.index"), recursive=True):
             os.remove(f)
-        self.url = imgrun.put_on_fs(self.b, fsname, f"cache_{seed}_{fsname}")
+        if nonascii and fsname == "local":
+            # a product below a non-ASCII path (the root path is stored inside the index document)
+            self.url = self.b.write(os.path.join(checklib.fresh_dir("prod_"), "donn\u00e9es_\u30c7\u30fc\u30bf"))
+        else:
+            self.url = imgrun.put_on_fs(self.b, fsname, f"cache_{seed}_{fsname}" + ("_donn\u00e9es" if nonascii else ""))
         self.twin = self.b.write(checklib.fresh_dir("twin_"))  # local twin: CLI runs here for non-local filesystems
         self.names = {"a": self.b.images[0]["name"], "b": self.b.images[1]["name"]} if len(self.b.images) > 1 else {"a": self.b.images[0]["name"]}
         self.ref = {}
@@ -219,6 +224,9 @@ class Driver:
         if op["op"] == "open":
             rpc = RPC_MAP[op["rpc"]]
             opts = {"use_cache": op["uc"], "create_cache": op["cc"], "records_per_chunk": rpc}
+            if op.get("minimal"):
+                # spell only what differs from the documented defaults (use_cache=True, create_cache=False, rpc=1024)
+                opts = {k: v for k, v in opts.items() if v != {"use_cache": True, "create_cache": False, "records_per_chunk": 1024}[k]}
             keep = copy.deepcopy(opts)
             try:
                 tree = ceos_alos2.open_alos2(self.url, backend_options=opts)
